@@ -47,7 +47,7 @@ def impl_piece(pydoc, w, fr, smart):
             sd = list(fn(pydoc, width=w, ribbon_frac=float(fr)))
             text = default_render_to_str(list(sd))
         return '(%s %s)' % (sdocs_to_sx(sd), sx_str('text', text)), sd, text
-    except Exception as e:  # compared as an error enum; the model never raises
+    except (Exception, common.ImplTimeout) as e:  # compared as an error enum; the model never raises
         return '(error %s)' % type(e).__name__, None, None
 
 
